@@ -33,11 +33,16 @@ def sim_alloc(elem, c):
 
 NM, TM, MO, MN, CO, TC = ("sim::elem_nm<0>", "sim::elem_tm<0>", "sim::elem_mo<0>",
                           "sim::elem_mn<0>", "sim::elem_co<0>", "sim::elem_tc<0>")
+SW = "sim::elem_sw<0>"
 
 # --- core: every flavour over a plain stateful, non-propagating allocator
 for i, (fl, e) in enumerate([("NM", NM), ("TM", TM), ("MO", MO), ("MN", MN), ("CO", CO)]):
     add("core_" + fl, e, sim_alloc(e, cfg()), NSETS[i % len(NSETS)],
         packs=("core", "c17") if fl in ("NM", "TM", "MO") else ("core",))
+# nothrow moves + throwing user swap: plain allocator, propagating-on-swap allocator, std::allocator
+add("core_SW", SW, sim_alloc(SW, cfg()), NSETS[2], packs=("core",))
+add("alloc_SW_001", SW, sim_alloc(SW, cfg(0, 0, 1)), NSETS[0], packs=("alloc",))
+add("alloc_SW_ae", SW, sim_alloc(SW, cfg(0, 0, 0, ae=1)), NSETS[5], packs=("alloc",))
 # std::allocator (tracked through a specialisation for the tagged element types)
 add("std_NM", "sim::elem_nm<1>", "std::allocator<sim::elem_nm<1> >", NSETS[1], packs=("core", "alloc", "c17"))
 add("std_TM", "sim::elem_tm<1>", "std::allocator<sim::elem_tm<1> >", NSETS[2], packs=("core", "alloc"))
